@@ -14,7 +14,7 @@ from vlib import tlc, expect_holds, ToolError
 LEVEL = "model_checking"
 TIERS = {
     "quick": dict(MaxN=60, MaxD=40, Ks="KsSmall", Limits="LimitsSmall", ELimits="ELimitsSmall", stride=5, random=20000),
-    "thorough": dict(MaxN=80, MaxD=60, Ks="KsFull", Limits="LimitsFull", ELimits="ELimitsFull", stride=40, random=150000),
+    "thorough": dict(MaxN=60, MaxD=40, Ks="KsFull", Limits="LimitsFull", ELimits="ELimitsFull", stride=40, random=150000),
 }
 PINNED = ["OneDigitLookahead", "BigIgnoresFraction", "BigMarksZeros"]
 REPAIRED = {k: "FALSE" for k in PINNED}
